@@ -352,7 +352,8 @@ def attr_sat(c, value):
     vals = [None] if value is None else list(value) if isinstance(value, list) else [value]
     if any(crit_sat(c, x) for x in vals):
         return True
-    return len(vals) > 1 and crit_sat(c, " ".join(vals))
+    # a multi-valued attribute also counts as one space-joined string (no values at all: the empty string)
+    return len(vals) != 1 and crit_sat(c, " ".join(vals))
 
 
 class Q:
@@ -412,6 +413,8 @@ def sat(q: Q, snap: Snap, i: int) -> bool:
     no_criteria = q.name == ("n",) and not pairs and q.string == ("n",)
     if no_criteria:
         return snap.is_tag[i]
+    if any(yields_no_rule(c) for c in q.crits()):
+        return False          # a criterion offering no alternative ([] / only nested lists / only None): nothing satisfies it
     has_tag_criteria = q.name != ("n",) or bool(pairs)
     if snap.is_tag[i]:
         if not has_tag_criteria:
@@ -600,8 +603,12 @@ def expected(snap: Snap, start: int, fam: str, form: str, limit, q: Q):
     log = None
     if q.name[0] == "f":
         # a function given as the name criterion is called once per candidate tag, with the Tag
+        # (a query that nothing can satisfy has no candidates)
         cand = ax if consumed_to is None else ax[:ax.index(consumed_to) + 1]
-        log = [("t", q.name[1], i) for i in cand if snap.is_tag[i]]
+        unsat = any(yields_no_rule(c) for c in q.crits())
+        # (an unsatisfiable query has no candidates: the log is then left free — /repo HEAD drops the empty criterion and
+        # calls the function, the proposed matches_nothing patch answers before calling it)
+        log = None if unsat else [("t", q.name[1], i) for i in cand if snap.is_tag[i]]
     return res, log
 
 
@@ -642,7 +649,11 @@ def tables(snap: Snap, q: Q):
     return (";".join(re_t) or "-"), (";".join(ft) or "-"), (";".join(fs) or "-")
 
 
-def model_line(snap, start, fam, form, limit, q, variant="r", tabs=None):
+MODEL_VARIANT = __import__("os").environ.get("C10_MODEL_VARIANT", "r")   # r = /repo HEAD, p = HEAD + fixes/proposed, u = 4.13.0
+
+
+def model_line(snap, start, fam, form, limit, q, variant=None, tabs=None):
+    variant = variant or MODEL_VARIANT
     re_t, ft, fs = tabs or tables(snap, q)
     lim = "none" if limit is None else str(limit)
     f = {"all": "all", "one": "one", "call": "call.1" if fam == "desc" else "call.0"}.get(form, form)
@@ -978,12 +989,8 @@ def run_css(ctx, r, snap, lines, pend):
         desc = {"op": "css", "markup": str(snap.soup), "tree": snap.enc, "start": start, "selector": sel}
         bad = got != want
         if bad:
-            kf = None
-            m = re.match(r"^\[([a-z-]+)\]$", sel)
-            if m and any(snap.is_tag[i] and n.attrs.get(m.group(1)) == [] for i, n in enumerate(snap.nodes)):
-                kf = "C10-empty-multivalued-attr"
             ctx.violation("select() disagrees with find_all on a selector both express", case=desc,
-                          expected=show_res(want), observed=show_res(got), stream="css", kf=kf)
+                          expected=show_res(want), observed=show_res(got), stream="css")
         if form is not None:
             lines.append(f"c10 find r {snap.enc} {start} desc {form} none n D n - - - -")
             pend.append((desc, got, bad))
